@@ -219,8 +219,32 @@ def gen_logical_list(t, enc):
 JUNK = [b"", b"ab\tcd", b"\x01ctl", b"xx\x1byy", b"\t", b"  \t  "]
 
 
+def junk_line(t, enc, style, errs):
+    """a line the reader must skip; errs[0] accumulates how many encoding errors it must count for it"""
+    jk = JUNK[t.draw(len(JUNK))]
+    counted = 0
+    k = t.draw(6)
+    if k == 0 and enc in ("utf-8", "ascii"):
+        jk = b"bad\xff\xfebytes"
+        counted = 1
+    elif k == 1:
+        jk = b"$HEX[zz]"
+        counted = 1
+    if style == "count":
+        if jk.strip() and t.chance(1, 2):
+            n = t.between(1, 3)
+            jk = str(n).encode() + b" " + jk
+            counted *= n
+        else:
+            counted = 0            # no numeric prefix: the line is not a record at all
+    errs[0] += counted
+    return jk
+
+
 def render(t, L, enc, style, junk, eol=b"\n", unterminated=False):
-    """bytes of a training file whose logical content is L"""
+    """bytes of a training file whose logical content is L; returns (data, hex lines, junk lines,
+    encoding errors the reader must count)"""
+    errs = [0]
     lines = []
     i = 0
     n_hex = 0
@@ -250,17 +274,17 @@ def render(t, L, enc, style, junk, eol=b"\n", unterminated=False):
                 lines.append(p.encode(enc))
             i += 1
         if junk and t.chance(1, 4):
-            jk = JUNK[t.draw(len(JUNK))]
-            if t.chance(1, 5) and enc in ("utf-8", "ascii"):
-                jk = b"bad\xff\xfebytes"
-            if style == "count":
-                jk = b"1 " + jk if jk.strip() and t.chance(1, 2) else jk
-            lines.append(jk)
             n_junk += 1
+            lines.append(junk_line(t, enc, style, errs))
+    if junk and t.chance(1, 3):
+        # junk after the last valid password (the passes must still read and count it)
+        for _ in range(t.between(1, 2)):
+            n_junk += 1
+            lines.append(junk_line(t, enc, style, errs))
     data = eol.join(lines)
     if not unterminated:
         data += eol
-    return data, n_hex, n_junk
+    return data, n_hex, n_junk, errs[0]
 
 
 def content_fails_anyway(pws, opts):
@@ -319,7 +343,7 @@ def run_c19(t, tier, res):
     res.sample = {"logical_list": L[:12], "n": len(L), "opts": opts, "variants": [v[0] for v in variants]}
     hashes = {}
     nontriv = False
-    for name, vopts, (data, n_hex, n_junk) in variants:
+    for name, vopts, (data, n_hex, n_junk, want_errs) in variants:
         tr = trainer.train(None, vopts, rule="V_" + name, raw=data, uuid_seed=3, filename="train.txt")
         res.stats["variant_" + name] += 1
         res.faults["junk_lines"] += n_junk
@@ -357,6 +381,11 @@ def run_c19(t, tier, res):
         if cfg.get("TRAINING_DATASET_DETAILS", "number_of_passwords_in_set") != str(len(L)):
             res.violate("C19", "password_count_wrong", {"variant": name, "config": cfg.get("TRAINING_DATASET_DETAILS",
                                                                                           "number_of_passwords_in_set"), "expected": len(L)})
+            return
+        if cfg.get("TRAINING_DATASET_DETAILS", "number_of_encoding_errors") != str(want_errs):
+            res.violate("C19", "encoding_error_count_wrong", {"variant": name, "config": cfg.get("TRAINING_DATASET_DETAILS",
+                                                                                                "number_of_encoding_errors"),
+                                                              "expected": want_errs, "junk_lines": n_junk})
             return
         hashes[name] = tree_hash(tr.rule_dir, skip_prefixes=(b"uuid =", b"filename =", b"number_of_encoding_errors ="))
     base = hashes.get("plain")
